@@ -283,4 +283,9 @@ example : stepOp (.sres [0x5b]) = .sres .err ∧ stepOp (.sres "a.b:80".toUTF8.t
     stepOp (.sres "/tmp/s\x00junk".toUTF8.toList) = .sres (.addr (mkUn "/tmp/s".toUTF8.toList) "/tmp/s".toUTF8.toList true) := by
   decide +kernel
 
+/-- `humansize` / `parsenum` / `getopt` lines (modelled by C16 / C18): `stepOp` only echoes the op; the real code
+    runs under ASan, nothing is compared beyond the word `inrange`. -/
+theorem exec_observed (o : Observed) : stepOp (.observed o) = .observed o := rfl
+example : stepOp (.observed .getopt) ≠ .ooc := by decide
+
 end Percival.C15
